@@ -69,7 +69,7 @@ fn main() {
                     ark_bls12_381::Fr::from(b)
                 })
                 .collect();
-            let out = run_once(&*ent.run, inputs, seed);
+            let out = engine::explore::run_once_mode(&*ent.run, inputs, seed, true);
             let (verdict, key) = match &out.verdict {
                 Verdict::Hold => ("holds", String::new()),
                 Verdict::Discard(w) => ("discarded", w.clone()),
